@@ -645,6 +645,10 @@ def slice_ok(F, f, bi, t, full):
                     if isinstance(sfx, str) and sfx.isascii() and len(sfx) >= e[2] and okey(f, tt[2][0]) == ckey:
                         return True, "x[..len-%d] under ends_with(x, %r): in bounds and on a char boundary (ASCII suffix)" % (e[2], sfx)
             return False, "x[..len-k] without a dominating ends_with guard"
+        # s[..min(len(s), n)]: never past the end
+        if e[0] == "min" and any(x == ("len", ckey) for x in e[1]):
+            if ascii_provenance(F, f, coll): return True, "s[..min(len(s), n)], s formatted from integers (ASCII): in bounds and on a char boundary"
+            return False, "s[..min(len, n)] is in bounds but s is not of ASCII provenance: may split a multi-byte character"
         # s[..n] under len(s) > n with s of ASCII provenance
         nk = okey(f, ops[0])
         bounded = False
